@@ -234,6 +234,9 @@ pub fn generate(
             .collect();
         cands.sort();
         cands.dedup();
+        // with duplicate keys no property says which occurrence ends up in the value, and a
+        // callback's failure is a function of the value it is given: no callback faults then
+        let n_cb = if has_dup { 0 } else { n_cb };
         for _ in 0..n_cb {
             if cands.is_empty() {
                 break;
